@@ -102,7 +102,7 @@ def path_shapes(M, rec, rng, maxlen, k, nsh):
                         netmon.compare_state(rec, PROP, netmon.graph_state(net), exp, ("add_path", shape, with_o, with_d))
                         rec.count("wellformed_paths_checked")
                         if r is not net:
-                            rec.violation(f"{PROP}:add_path: does not return the network itself", {"shape": shape})
+                            rec.count("call_does_not_return_the_network")
                 else:
                     if raised is None:
                         rec.violation(
